@@ -508,6 +508,42 @@ impl CountOnes for BigInt {
     }
 }
 
+/// BoundedInt division: `bounded_int::div_rem(BoundedInt<0, A>, NonZero<R>)` for boundary dividend
+/// ranges (perfect squares and their neighbours, powers of two, 2^128 - 1) and every unsigned
+/// integer divisor type. Returns the source and the divisor type's maximum.
+pub fn bounded_div_source(a_max: &BigInt, r_bits: u32) -> (String, BigInt) {
+    let r_max: BigInt = (BigInt::one() << r_bits) - BigInt::one();
+    (
+        format!(
+            "#[feature(\"bounded-int-utils\")]\nuse core::internal::bounded_int::{{self, BoundedInt, DivRemHelper}};\ntype Lhs = BoundedInt<0, {a_max}>;\nimpl H of DivRemHelper<Lhs, u{r_bits}> {{\n    type DivT = Lhs;\n    type RemT = BoundedInt<0, {}>;\n}}\n#[inline(never)]\nfn dr(a: u128, b: u{r_bits}) -> (u128, u128) {{\n    let a: Lhs = bounded_int::downcast(a).unwrap();\n    let bnz: NonZero<u{r_bits}> = b.try_into().unwrap();\n    let (q, r) = bounded_int::div_rem(a, bnz);\n    (bounded_int::upcast(q), bounded_int::upcast(r))\n}}\n",
+            r_max.clone() - BigInt::one()
+        ),
+        r_max,
+    )
+}
+
+/// Judges dr(a, b) against (a / b, a % b). Ok(()) or (signature, description).
+pub fn judge_bounded_div(c: &crate::core::exec::Compiled, a: &BigInt, b: &BigInt) -> Result<(), (String, String)> {
+    use cairo_lang_runner::{Arg, RunResultValue};
+    let f = c.runner.find_function("::dr").map_err(|e| ("bounded-div:no-function".to_string(), format!("{e}")))?.clone();
+    let args = vec![Arg::Value(crate::core::exec::bigint_to_felt(a)), Arg::Value(crate::core::exec::bigint_to_felt(b))];
+    match crate::core::exec::run(c, &f, args, Some(crate::props::execs::BIG_GAS)) {
+        Ok(e) => match &e.value {
+            RunResultValue::Success(v) if v.len() == 2 => {
+                let (q, r) = (crate::core::exec::felt_to_bigint(&v[0]), crate::core::exec::felt_to_bigint(&v[1]));
+                if q == a / b && r == a % b {
+                    Ok(())
+                } else {
+                    Err(("bounded-div:wrong-result".into(), format!("bounded_int::div_rem({a}, {b}) gives ({q}, {r}), exact is ({}, {})", a / b, a % b)))
+                }
+            }
+            other => Err(("bounded-div:unexpected-outcome".into(), format!("bounded_int::div_rem({a}, {b}) with a in range and b > 0 ends with {other:?}"))),
+        },
+        Err(crate::core::exec::ExecErr::Vm(m)) => Err(("bounded-div:vm-failure".into(), format!("bounded_int::div_rem({a}, {b}): the honest run fails in the VM: {}", crate::core::driver::truncate(&m, 200)))),
+        Err(e) => Err(("bounded-div:run-error".into(), format!("{e:?}"))),
+    }
+}
+
 impl Prop for C06 {
     fn id(&self) -> &'static str {
         "C06"
@@ -644,8 +680,76 @@ impl Prop for C06 {
                 }
             }
         });
+        if ctx.only.is_some() {
+            return;
+        }
+        // BoundedInt division family.
+        let cases = tier.pick(6, 60);
+        let db2 = FrontCfg::default_cfg().new_db(Plugins::Default);
+        ctx.run_shards(120, cases, |cc: &mut crate::core::driver::CaseCtx<'_>, ch: &mut crate::core::choices::Choices| {
+            let ks: Vec<BigInt> = vec![BigInt::from(15), BigInt::from(255), BigInt::from(65535), BigInt::from(u32::MAX), BigInt::from(u64::MAX), BigInt::one() << 32u32, BigInt::one() << 63u32, BigInt::from(1000003u64)];
+            let k = ks[ch.below(ks.len())].clone();
+            let two128: BigInt = BigInt::one() << 128u32;
+            let a_max = match ch.below(7) {
+                0 | 1 => &k * &k,
+                2 => &k * &k - BigInt::one(),
+                3 => &k * &k + BigInt::one(),
+                4 => two128.clone() - BigInt::one(),
+                5 => BigInt::one() << 127u32,
+                _ => &k * (k.clone() + BigInt::one()),
+            };
+            let a_max: BigInt = if a_max >= two128 { two128.clone() - BigInt::one() } else { a_max };
+            let r_bits = *ch.pick(&[8u32, 16, 32, 64, 128]);
+            let (src, r_max) = bounded_div_source(&a_max, r_bits);
+            let art0 = json!({"kind": "bounded-div", "a_max": a_max.to_string(), "r_bits": r_bits});
+            cc.start(|| art0.clone());
+            let c = match crate::core::exec::compile_source(&db2, &format!("bd{}", hash_str(&src) % 100000), &src, crate::core::exec::MetaCfg::linear()) {
+                Ok(c) => c,
+                Err(_) => {
+                    cc.stats().count("bounded_div_instantiation_not_compilable");
+                    return Verdict::Skip("instantiation not supported");
+                }
+            };
+            let a_c: Vec<BigInt> = vec![BigInt::zero(), BigInt::one(), a_max.clone(), a_max.clone() - BigInt::one(), &k * &k, &k * (k.clone() + BigInt::one()), &k * (k.clone() - BigInt::one()), k.clone(), BigInt::from(ch.u128()) % (a_max.clone() + BigInt::one())];
+            let b_c: Vec<BigInt> = vec![BigInt::one(), BigInt::from(2), k.clone(), k.clone() + BigInt::one(), k.clone() - BigInt::one(), r_max.clone(), r_max.clone() - BigInt::one(), BigInt::from(ch.u128()) % &r_max + BigInt::one()];
+            for _ in 0..8 {
+                let a = a_c[ch.below(a_c.len())].clone();
+                let b = b_c[ch.below(b_c.len())].clone();
+                if a > a_max || a < BigInt::zero() || b < BigInt::one() || b > r_max {
+                    continue;
+                }
+                match judge_bounded_div(&c, &a, &b) {
+                    Ok(()) => {
+                        let st = cc.stats();
+                        st.eval();
+                        st.count("bounded_div_pairs");
+                        if a == &k * &k && b == k {
+                            st.count("bounded_div_square_over_root");
+                        }
+                        st.nontrivial(hash_str(&format!("bd{a_max}{r_bits}{a}{b}")));
+                    }
+                    Err((sig, what)) => {
+                        let mut art = art0.clone();
+                        art["a"] = json!(a.to_string());
+                        art["b"] = json!(b.to_string());
+                        return Verdict::fail(sig, what, art);
+                    }
+                }
+            }
+            Verdict::Pass
+        });
     }
     fn replay(&self, artefact: &Value) -> Verdict {
+        if artefact["kind"].as_str() == Some("bounded-div") {
+            let g = |k: &str| -> BigInt { artefact[k].as_str().and_then(|s| s.parse().ok()).unwrap_or_default() };
+            let (src, _) = bounded_div_source(&g("a_max"), artefact["r_bits"].as_u64().unwrap_or(128) as u32);
+            let db = FrontCfg::default_cfg().new_db(Plugins::Default);
+            let Ok(c) = crate::core::exec::compile_source(&db, "bd", &src, crate::core::exec::MetaCfg::linear()) else { return Verdict::Skip("not compilable") };
+            return match judge_bounded_div(&c, &g("a"), &g("b")) {
+                Ok(()) => Verdict::Pass,
+                Err((sig, what)) => Verdict::fail(sig, what, artefact.clone()),
+            };
+        }
         let tname = artefact["type"].as_str().unwrap_or("u8");
         let Some(t) = TYPES.iter().find(|t| tn(t) == tname) else { return Verdict::Skip("unknown type") };
         let db = FrontCfg::default_cfg().new_db(Plugins::Default);
